@@ -92,6 +92,27 @@ func genCorpusItem(c *rt.C, env *psEnv, kind string, invalid bool) corpusItem {
 		for i, n := 0, rng.IntN(40); i < n; i++ {
 			buf.WriteString("% filler comment line\n"[:1+rng.IntN(21)] + "\n")
 		}
+		if rng.IntN(2) == 0 {
+			// structured comments with continuation lines, every line end style, also mixed
+			les := []string{"\n", "\r", "\r\n"}
+			le := func() string { return les[rng.IntN(3)] }
+			if rng.IntN(2) == 0 {
+				one := le()
+				le = func() string { return one }
+			}
+			for i, n := 0, 1+rng.IntN(4); i < n; i++ {
+				fmt.Fprintf(&buf, "%%%%Key%d: value %d%s", i, rng.IntN(100), le())
+				for j := rng.IntN(3); j > 0; j-- {
+					buf.WriteString([]string{"%%+ continued", "%%+", "%%+  more text "}[rng.IntN(3)] + le())
+				}
+				if rng.IntN(4) == 0 {
+					buf.WriteString("%%" + le())
+				}
+				if rng.IntN(4) == 0 {
+					buf.WriteString("% plain comment" + le())
+				}
+			}
+		}
 		g := &g3{rng: rng, feat: map[string]bool{}, maxD: 2}
 		txt := ref.RenderTokens(g.body(0, 0))
 		buf.WriteString(txt + "\n")
